@@ -183,10 +183,72 @@ def _restricted():
     return _RESTRICTED
 
 
+# Equivalent spellings of one hint (DESIGN 3.1b).  The documentation lists List / Iterable / MutableSequence, Dict / Mapping /
+# MutableMapping, Set / MutableSet, the PEP 585 builtins, PEP 604 unions and Annotated[T, ...] as supported; they denote the same
+# set of values, so every oracle stays as it is and only the hint handed to the parser changes.  SPELL[0] == 0 is the canonical
+# spelling; any other value picks, per node, one of the equivalent forms as a pure function of (SPELL, node).
+SPELL = [0]
+
+
+def set_spell(n):
+    SPELL[0] = int(n or 0)
+
+
+def _pick(key, n, salt=""):
+    if not SPELL[0] or n <= 1:
+        return 0
+    import hashlib
+
+    return int.from_bytes(hashlib.blake2b(f"{SPELL[0]}:{salt}:{key}".encode(), digest_size=4).digest(), "big") % n
+
+
+def _spelled(k, key, args):
+    """the hint for container kind k with already built argument types, in the spelling chosen for this node"""
+    import collections.abc as abc
+    import functools
+    import operator
+    import typing as ty
+
+    if k in ("list",):
+        forms = [List, list, ty.MutableSequence, abc.MutableSequence, ty.Iterable, abc.Iterable]
+        return forms[_pick(key, len(forms))][args[0]]
+    if k == "seq":
+        forms = [Sequence, abc.Sequence]
+        return forms[_pick(key, len(forms))][args[0]]
+    if k in ("dict", "dictint"):
+        forms = [Dict, dict, ty.Mapping, ty.MutableMapping, abc.Mapping, abc.MutableMapping]
+        return forms[_pick(key, len(forms))][(str if k == "dict" else int), args[0]]
+    if k == "tuple":
+        return [Tuple, tuple][_pick(key, 2)][tuple(args)]
+    if k == "tuplevar":
+        return [Tuple, tuple][_pick(key, 2)][args[0], ...]
+    if k == "set":
+        forms = [Set, set, ty.MutableSet, abc.MutableSet]
+        return forms[_pick(key, len(forms))][args[0]]
+    if k == "union":
+        if _pick(key, 2):
+            return functools.reduce(operator.or_, args)
+        return Union[tuple(args)]
+    if k == "opt":
+        i = _pick(key, 3)
+        return Optional[args[0]] if i == 0 else (args[0] | None if i == 1 else Union[None, args[0]])
+    raise ValueError(k)
+
+
 def to_type(shape):
-    key = json.dumps(shape, sort_keys=True, default=repr)
+    key = json.dumps([SPELL[0], shape], sort_keys=True, default=repr)
     if key in _TYPE_CACHE:
         return _TYPE_CACHE[key]
+    t = _to_type(shape, key)
+    if shape[0] not in ("dc", "cls") and _pick(key, 8, "ann") == 1:
+        import typing as ty
+
+        t = ty.Annotated[t, "vf-meta"]
+    _TYPE_CACHE[key] = t
+    return t
+
+
+def _to_type(shape, key):
     k = shape[0]
     if k == "str":
         t = str
@@ -216,24 +278,8 @@ def to_type(shape):
         t = range
     elif k == "ppath":
         t = pathlib.Path
-    elif k == "opt":
-        t = Optional[to_type(shape[1])]
-    elif k == "union":
-        t = Union[tuple(to_type(x) for x in shape[1:])]
-    elif k == "list":
-        t = List[to_type(shape[1])]
-    elif k == "seq":
-        t = Sequence[to_type(shape[1])]
-    elif k == "dict":
-        t = Dict[str, to_type(shape[1])]
-    elif k == "dictint":
-        t = Dict[int, to_type(shape[1])]
-    elif k == "tuple":
-        t = Tuple[tuple(to_type(x) for x in shape[1:])]
-    elif k == "tuplevar":
-        t = Tuple[to_type(shape[1]), ...]
-    elif k == "set":
-        t = Set[to_type(shape[1])]
+    elif k in ("opt", "union", "list", "seq", "dict", "dictint", "tuple", "tuplevar", "set"):
+        t = _spelled(k, key, [to_type(x) for x in shape[1:]])
     elif k == "dc":
         t = make_dc(shape)
     elif k == "cls":
@@ -242,7 +288,6 @@ def to_type(shape):
         t = getattr(fixtures, shape[1])
     else:
         raise ValueError(shape)
-    _TYPE_CACHE[key] = t
     return t
 
 
